@@ -282,3 +282,25 @@ func verifH_C06_multipart() {
 	verifAssert((err == nil) == ok, "C06 multipart: the body is accepted exactly when its parts satisfy their property schemas and the required parts are present")
 	verifReach("end")
 }
+
+//verif:harness id=C06 tier=quick,thorough witness=end bounds="application/json bodies (concrete texts through the JSON contract model / native encoding/json): 10 texts (objects satisfying or violating the schema, an array, a scalar, truncated text, a value followed by garbage, two values, empty, whitespace only, null) against {type: object, required [a], properties {a: integer minimum symbolic}}; accepted exactly when the text is one JSON value that satisfies the schema"
+func verifH_C06_json_texts() {
+	min := verifNondetFloat64("min")
+	verifAssume(min == min)
+	obj := &openapi3.Schema{Type: &openapi3.Types{"object"}, Required: []string{"a"}, Properties: openapi3.Schemas{"a": {Value: &openapi3.Schema{Type: &openapi3.Types{"integer"}, Min: &min}}}}
+	texts := []string{`{"a":5}`, `{"a":-2}`, `{"b":1}`, `[1]`, `7`, `{"a":5`, `{"a":5} trailing`, `{"a":5}{"a":6}`, ``, `  `, `null`}
+	k := verifChoose("text", len(texts))
+	rb := &openapi3.RequestBody{Required: true, Content: openapi3.Content{"application/json": &openapi3.MediaType{Schema: &openapi3.SchemaRef{Value: obj}}}}
+	op := &openapi3.Operation{RequestBody: &openapi3.RequestBodyRef{Value: rb}}
+	input := verifBodyInput(op, "application/json", texts[k], true, &Options{})
+	err := ValidateRequestBody(context.Background(), input, rb)
+	want := false
+	switch k {
+	case 0:
+		want = 5 >= min
+	case 1:
+		want = -2 >= min
+	}
+	verifAssert((err == nil) == want, "C06 json texts: a body is accepted exactly when it is one JSON value satisfying the schema")
+	verifReach("end")
+}
